@@ -20,7 +20,7 @@ from jaxtyping import AbstractDtype, make_numpy_struct_dtype
 from vf import obs
 from vf.core import Violation
 from vf.models import dtypes as dt
-from vf.obs import Duck, TorchLikeDtype
+from vf.obs import Duck, EnumLikeDtype, TorchLikeDtype
 
 ID = "C03"
 LEVEL = "exploration"
@@ -30,7 +30,7 @@ RULE = (
     "(np.sctypeDict incl. longlong/ulonglong/intc/longdouble/clongdouble, str_, bytes_, void, object_, datetime64, "
     "timedelta64), 10 dtypes with an explicit (non-native / native) byte order, all 16 ml_dtypes types, key dtypes of the 3 PRNG impls, 11 structured dtypes (two of equal width, one aligned, one with upper-case codes, nested-field and sub-array-field look-alikes of equal size) and raw V2; 34 exported classes "
     "+ 24 user categories (strings, regexes, mixed, case-sensitive names, one per structured dtype); backends numpy, jax.Array, jax tracer (eval_shape and jit), "
-    "key arrays, duck(str dtype), duck(torch-style repr 'torch.<name>' and mlx-style repr 'mlx.core.<name>'), duck(numpy dtype), TensorFlow tensors. A backend is "
+    "key arrays, duck(str dtype), duck(torch-style repr 'torch.<name>', mlx-style repr 'mlx.core.<name>', enum-style 'paddle.<name>' with a .name attribute), duck(numpy dtype), TensorFlow tensors. A backend is "
     "crossed with a dtype when it can actually produce an array of it (measured). Every triple is non-trivial; distinct by "
     "(canonical dtype name, source type, category, backend)."
 )
@@ -260,6 +260,7 @@ def run(ctx):
                 guarded(lambda: decide(cat, canon, src, "duck-str", Duck((2,), canon), Duck))
                 guarded(lambda: decide(cat, canon, src, "duck-torchstyle", Duck((2,), TorchLikeDtype(canon)), Any))
                 guarded(lambda: decide(cat, canon, src, "duck-mlxstyle", Duck((2,), TorchLikeDtype(canon, "mlx.core.")), Any))
+                guarded(lambda: decide(cat, canon, src, "duck-enumstyle", Duck((2,), EnumLikeDtype(canon)), Any))
 
     # ---- duck arrays with names no array library uses (user categories must match them exactly)
     for nm in DUCK_ONLY_NAMES:
@@ -397,6 +398,8 @@ def replay(case, clause, ctx):
         v, at = Duck((2,), TorchLikeDtype(canon)), Any
     elif backend == "duck-mlxstyle":
         v, at = Duck((2,), TorchLikeDtype(canon, "mlx.core.")), Any
+    elif backend == "duck-enumstyle":
+        v, at = Duck((2,), EnumLikeDtype(canon)), Any
     elif backend == "jax":
         v, at = jnp.zeros((2,), dtype=d), jax.Array
     elif backend.startswith("jax-key"):
